@@ -496,6 +496,13 @@ impl Property for C08 {
             }));
             v.push(Stream::new("decision-table-sample", 40_000, false, move |i| format!("T|{}", mix(&[seed, 0xC08, i]) % full)));
         }
+        // register lengths at the boundary between `qubit` and `qubit[n]`: measuring qubit[1] yields bit[1]
+        v.push(Stream::new("measurement-register-lengths", 3 * 4 * 3, true, |i| {
+            let ctx = ["declaration", "const-declaration", "assignment"][(i % 3) as usize];
+            let (tb, tw) = [("bit", "-"), ("bit", "1"), ("bit", "2"), ("bit", "3")][((i / 3) % 4) as usize];
+            let vw = ["1", "2", "3"][(i / 12) as usize];
+            format!("S|{ctx}|{tb}|{tw}|measurement|bit|{vw}")
+        }));
         v.push(Stream::new("arithmetic-operator-x-type-pairs", na * nt * nt, true, |i| format!("A|{i}")));
         v
     }
